@@ -388,7 +388,56 @@ type c05Ctx struct {
 }
 
 // only the panic-focused representatives are placed in these contexts
-func (c c05Ctx) focus() bool { return strings.Contains(c.Name, "accept-reject") }
+func (c c05Ctx) focus() bool {
+	return strings.Contains(c.Name, "accept-reject") || strings.HasPrefix(c.Name, "demand:") || strings.HasPrefix(c.Name, "try-demand:")
+}
+
+// demand contexts: the fault is raised while item i of the lazy list [10..15].map(..) is computed; the stages and
+// the consumer behind it demand the first d items in the sequential lazy semantics (d = 6: all)
+var c05DemandOf = map[string][2]int{}
+
+func init() {
+	src := func(i int) string {
+		return fmt.Sprintf("[10,11,12,13,14,15].map(z->if z!=%d then z else let m=mark(0); let t=%%F; z)", 10+i)
+	}
+	add := func(name string, d, i int, tail string, try bool) {
+		prog, coq, pre := src(i)+tail, "KDemand", "demand:"
+		if try {
+			prog, coq, pre = "try "+prog+" catch 4242", "KTryDemand", "try-demand:"
+		}
+		n := fmt.Sprintf("%s%s-fault-at-%d", pre, name, i)
+		c05Contexts = append(c05Contexts, c05Ctx{n, fmt.Sprintf("(%s %d %d)", coq, d, i), prog, false, false})
+		c05DemandOf[n] = [2]int{d, i}
+	}
+	for _, i := range []int{0, 2, 4} { // n > i, n = i, n < i: skip drops the value of a skipped item, never its error
+		add("skip2-sum", 6, i, ".skip(2).sum()", false)
+	}
+	add("skip2-size", 6, 0, ".skip(2).size()", false)
+	add("skip2-size", 6, 1, ".skip(2).size()", false)
+	add("skip6-size", 6, 3, ".skip(6).size()", false)
+	for _, i := range []int{1, 2, 3, 5} { // top(3) demands exactly three items
+		add("top3-sum", 3, i, ".top(3).sum()", false)
+	}
+	for _, i := range []int{1, 3, 4} {
+		add("top4-skip2-sum", 4, i, ".top(4).skip(2).sum()", false)
+	}
+	add("skip2-top2-sum", 4, 1, ".skip(2).top(2).sum()", false)
+	add("skip2-top2-sum", 4, 4, ".skip(2).top(2).sum()", false)
+	add("first", 1, 0, ".first()", false)
+	add("first", 1, 1, ".first()", false)
+	add("accept-rejecting-the-faulty-item", 6, 2, ".accept(y->y!=12).size()", false)
+	add("compact", 6, 3, ".compact((p,q)->p=q).size()", false)
+	for _, i := range []int{1, 2, 3} { // stops at index 2
+		add("indexWhere-stops-at-2", 3, i, ".indexWhere(y->y=12)", false)
+		add("present-stops-at-2", 3, i, ".present(y->y=12)", false)
+	}
+	add("index1", 6, 0, "[1]", false) // AccessList asks for the size: the whole list is evaluated
+	add("index1", 6, 4, "[1]", false)
+	add("skip2-sum", 6, 0, ".skip(2).sum()", true)
+	add("skip2-sum", 6, 4, ".skip(2).sum()", true)
+	add("top3-sum", 3, 1, ".top(3).sum()", true)
+	add("top3-sum", 3, 4, ".top(3).sum()", true)
+}
 
 var c05Contexts = []c05Ctx{
 	{"top", "KTop", "let m=mark(0); %F", false, false},
@@ -1080,6 +1129,14 @@ func cmdC05(seed int64, tier, outDir string) {
 			sum.GoViolations = append(sum.GoViolations, GoViolation{CaseID: id, What: fmt.Sprintf("the recursion guard did not fire: recursion through %s reached depth %d (every level on a fresh value stack); runaway recursion of this shape exhausts the Go stack or the memory",
 				strings.TrimPrefix(c.Leaf.Src, "recursion-through:"), c05RecBound),
 				Sig: sig, Human: human, Expected: "error: stack overflow; maybe a recursive function does not terminate", Observed: "value " + obs.Detail})
+		} else if di, isDemand := c05DemandOf[c.Ctx]; isDemand && di[1] >= di[0] && obs.Class != "val" {
+			sum.GoViolations = append(sum.GoViolations, GoViolation{CaseID: id, What: fmt.Sprintf("the fault is raised at item %d but only the first %d items are demanded (sequential lazy semantics): it must stay invisible; observed %s %s", di[1], di[0], obs.Class, obs.Detail),
+				Sig: sig, Human: human, Expected: "a value", Observed: obs.Class})
+		} else if isDemand && di[1] >= di[0] {
+			// a value, as laziness demands
+		} else if isDemand && tryOuter && obs.Class == "val" && c05SurelyFaulting(c.Leaf) {
+			sum.GoViolations = append(sum.GoViolations, GoViolation{CaseID: id, What: fmt.Sprintf("the fault raised at item %d lies in the demanded prefix (%d items) but the try branch was taken: the fault was swallowed; value %s", di[1], di[0], obs.Detail),
+				Sig: sig, Human: human, Expected: "the catch value 4242", Observed: "value " + obs.Detail})
 		} else if (obs.Class == "val" || obs.Class == "catch") && !strings.Contains(c.Ctx, "try") && c05SurelyFaulting(c.Leaf) {
 			sum.GoViolations = append(sum.GoViolations, GoViolation{CaseID: id, What: "the fault source is reached by the (deep) evaluation but no error came back: value " + obs.Detail,
 				Sig: sig, Human: human, Expected: "an error returned by Func.Eval or by evaluating the lists of its result", Observed: "value " + obs.Detail})
